@@ -74,7 +74,7 @@ static bool declares_huge(const uint8_t *d, size_t n)
     static const char *const ts_kw[] = { "[number of ports]", "[number of frequencies]" };
     static const char *const npd_kw[] = { "#:ports", "#:rows", "#:columns", "#:frequencies" };
     long ts_val[2] = { 0, 0 }, npd_val[4] = { 0, 0, 0, 0 };
-    char word[64];
+    char word[64] = { 0 };
 
     for (int k = 0; k < 2; ++k) {
 	const uint8_t *p = d, *hit;
@@ -138,7 +138,7 @@ static bool declares_huge(const uint8_t *d, size_t n)
 static bool opens_with_unsupported_version(int ext, const uint8_t *d, size_t n)
 {
     const uint8_t *p = d, *end = d + n;
-    char word[64];
+    char word[64] = { 0 };	/* fully initialised: -O2 turns strcmp(word, "2.0") into a 4-byte compare (memcheck) */
 
     if (ext != 5) {		/* Touchstone: [Version] <word>, comments start with '!' */
 	for (;;) {
